@@ -34,7 +34,7 @@ def pool():
         ('bind', 'x', None, ('exists', 'xx', None, ('and', ('and', ('jump', 'x', ('not', XX)), ('jump', 'x', ('EF', XX))), ('jump', 'xx', ('EF', X))))),
         ('EX', P0), ('AX', P1), ('EX', W), ('bind', 'x', None, ('AX', X)), ATTR, ('bind', 'x', 'd', ('AX', P1)), ('exists', 'x', None, ('EX', ('EX', X))),
         ('bind', 'x', None, ('exists', 'xx', None, ('and', ('EX', XX), ('jump', 'xx', ('EX', X))))),
-    ]
+    ] + G.swapped_duplicates()
 
 def scope_family():
     """a closed duplicate inside a stack of quantifiers (each with / without a domain, none occurring in it) and outside,
@@ -144,6 +144,7 @@ def run(chk):
     sub_batches(chk, thorough)
     tf = triple_family()
     UC.run_family(chk, 'C04', [(['U2'], tf if thorough else tf[::2])], entries=('ext_dirty',), signature='batch')
+    UC.run_family(chk, 'C04', [(['U2'], G.swapped_duplicates())], entries=('ext_dirty', 'ext_multi_dirty'), signature='batch')
     e_uni(chk, fs + dupf, thorough, n_batches=60 if thorough else 14)
 
 def sub_batches(chk, thorough):
